@@ -17,6 +17,7 @@ a necessary condition (breaking it makes some tree over S accepted by both or by
   pos        a child state taken from position c of a rule goes to post[c]; position i of the new rule comes from post[i]
   reset      the per-symbol scratch containers are empty at the start of every symbol iteration; a post[i] is cleared
              after it was harvested
+  enqueue    every macro-state that enters the cache is put on the worklist (on the branch where the insert created it)
   symkind    `ranks[]` and the second level of the rule index are subscripted with the dense index of the symbol
              (`.second`), rules are emitted under the symbol itself (`.first`) and under the number of the dequeued
              macro-state
@@ -25,8 +26,8 @@ a necessary condition (breaking it makes some tree over S accepted by both or by
 
 Decided: these clauses.  Not decided: exactness of the construction as such."""
 import re
-from vfacts import strip, walk, is_node, method_name, must_pass_through, enclosing, known_facts, guards, conjuncts, root_path
-from .prov import var_table, origins, local_sources
+from vfacts import ancestors, strip, walk, is_node, method_name, must_pass_through, enclosing, known_facts, guards, conjuncts, root_path
+from .prov import var_table, origins, local_sources, callee_view
 
 RULE = 'COMPL'
 FLOOR = 14
@@ -91,10 +92,78 @@ def guards_within(n, stop):
             if c is stop:
                 break
             continue
-        if not inside(c, stop):
-            break
+        if not inside(c, stop) or (is_node(stop.get('c')) and inside(c, stop['c'])):
+            break       # outside `stop`, or the loop condition of `stop` itself
         out.extend(conjuncts(c, pol))
     return out
+
+
+
+def cfg_for(fn, n):
+    """the CFG a node belongs to: the enclosing lambda's, or the function's"""
+    lam = enclosing(n, ('LambdaExpr',))
+    return (fn.lambda_cfg(lam), lam) if lam is not None else (fn.cfg(), None)
+
+
+def dict_fill(unit, em, fn, body, symmap, alphas, srcs, rank_vecs):
+    """clauses alphabet + ranks for the function (Compute itself or a helper) that fills the symbol container; returns True when
+    a fill of `symmap` was found there"""
+    def dict_loop(L):
+        if L['k'] != 'CXXForRangeStmt' or not is_node(L.get('range')):
+            return False
+        for c in walk(L['range']):
+            if c['k'] == 'CXXMemberCallExpr' and method_name(c) == 'GetSymbolDict':
+                o = origins(fn, c.get('obj'), stop=set(alphas) | set(srcs))
+                return bool(o & set(alphas)) or (bool(o & set(srcs)) and any(x['k'] == 'CXXMemberCallExpr' and method_name(x) == 'GetAlphabet' for x in walk(c.get('obj'))))
+        return False
+    fills = [c for c in walk(body) if c['k'] == 'CXXMemberCallExpr' and method_name(c) in FILLS and dref(c.get('obj')) == symmap]
+    fills += [c for c in walk(body) if c['k'] == 'CXXOperatorCallExpr' and c.get('op') == '[]' and c.get('args') and dref(c['args'][0]) == symmap and
+              (c.get('_p') or {}).get('k') in ('BinaryOperator', 'CXXOperatorCallExpr') and (c['_p'].get('op') == '=')]
+    if not fills:
+        return False
+    fill_loop = None
+    for f in fills:
+        L = enclosing(f, ('CXXForRangeStmt',))
+        txt = unit.text(f, 60)
+        if L is None or not dict_loop(L):
+            em.violation(f, txt, 'the symbols the complement is taken over are collected here, but not in a loop over `<alphabet>->GetSymbolDict()`: a symbol that is registered in the '
+                         'alphabet and not used by the automaton gets no rule, so trees containing it are rejected by both A and Complement(A) (or symbols outside the alphabet get rules)', 'alphabet')
+            continue
+        fill_loop = L
+        g = guards_within(f, L)
+        if g:
+            em.violation(f, txt, 'the symbol is recorded only under the test `%s`: symbols of the alphabet for which it fails get no rule in the complement' % unit.text(g[0][1], 50), 'alphabet')
+        else:
+            em.ok(f, txt, 'every entry of the alphabet dictionary is recorded, unconditionally', 'alphabet')
+    ranks = None
+    if fill_loop is not None:
+        for c in walk(fill_loop):
+            if c['k'] == 'CXXMemberCallExpr' and method_name(c) in ('push_back', 'emplace_back') and dref(c.get('obj')) in rank_vecs:
+                ranks = dref(c.get('obj'))
+                txt = unit.text(c, 60)
+                g = guards_within(c, fill_loop)
+                arg = resolve(fn, (c.get('args') or [None])[0])
+                is_rank = arg is not None and any(x['k'] == 'MemberExpr' and x.get('n') == 'rank' for x in walk(arg))
+                if g:
+                    em.violation(c, txt, 'the rank is recorded only under `%s` while the symbol is recorded unconditionally: the positions of later symbols no longer match their ranks' % unit.text(g[0][1], 40), 'ranks')
+                elif not is_rank:
+                    em.violation(c, txt, 'the value recorded per symbol is not the `rank` of the dictionary entry', 'ranks')
+                else:
+                    em.ok(c, txt, 'the rank of every dictionary entry is recorded in the pass that records the symbol', 'ranks')
+                for f in [x for x in walk(fill_loop) if x['k'] == 'CXXMemberCallExpr' and method_name(x) in FILLS and dref(x.get('obj')) == symmap]:
+                    szs = [x for x in walk(f) if x['k'] == 'CXXMemberCallExpr' and method_name(x) == 'size' and dref(x.get('obj')) == ranks]
+                    if not szs:
+                        continue
+                    minus1 = any(b['k'] == 'BinaryOperator' and b.get('op') == '-' and any(y is szs[0] for y in walk(b['ch'][0])) and (strip(b['ch'][1]) or {}).get('v') == 1 for b in walk(f))
+                    before = unit.loc(f)[1:] < unit.loc(c)[1:]
+                    if (before and not minus1) or (not before and minus1):
+                        em.ok(f, unit.text(f, 60), 'the position stored with the symbol is the position its rank is pushed to', 'ranks')
+                    else:
+                        em.violation(f, unit.text(f, 60), 'the position stored with the symbol (`%s`%s) is not the position its rank is pushed to (the push is %s this statement): every symbol is looked up with the rank of its neighbour' % (
+                            unit.text(szs[0], 20), ' - 1' if minus1 else '', 'before' if not before else 'after'), 'ranks')
+    if ranks is None and rank_vecs and fill_loop is not None:
+        em.unknown(fill_loop, 'rank vector', 'the pass that records the ranks was not recognised')
+    return True
 
 
 def run(unit, em):
@@ -143,82 +212,41 @@ def compute(unit, fn, em):
     work_loop = enclosing(sym_loop, ('WhileStmt', 'DoStmt', 'ForStmt'))
     sv = sym_loop['var']['d']
 
-    # ---- alphabet: what the symbol loop ranges over
+    # ---- alphabet / ranks: what the symbol loop ranges over, and the ranks recorded with it
     rng = strip(sym_loop.get('range'))
     symmap = dref(rng)
-    fill_loop = None
-
-    def dict_loop(L):
-        """range-for over <x>->GetSymbolDict() with x derived from the alphabet parameter"""
-        if L['k'] != 'CXXForRangeStmt' or not is_node(L.get('range')):
-            return False
-        for c in walk(L['range']):
-            if c['k'] == 'CXXMemberCallExpr' and method_name(c) == 'GetSymbolDict':
-                o = origins(fn, c.get('obj'), stop={alpha, src})
-                return alpha in o or (src in o and any(x['k'] == 'CXXMemberCallExpr' and method_name(x) == 'GetAlphabet' for x in walk(c.get('obj'))))
-        return False
-    if symmap is None:
-        if dict_loop(sym_loop):
-            em.ok(sym_loop, 'symbol loop over GetSymbolDict()', 'ranges over the dictionary of the alphabet itself', 'alphabet')
-        else:
-            em.violation(sym_loop, 'symbol loop over ' + unit.text(rng, 50), 'the complement must emit rules for every ranked symbol of the alphabet; this loop does not range over the alphabet dictionary '
-                         '(symbols registered in the alphabet but unused by the automaton get no rule: trees using them are rejected by both A and its complement)', 'alphabet')
-    else:
-        fills = [c for c in fn.calls() if c['k'] == 'CXXMemberCallExpr' and method_name(c) in FILLS and dref(c.get('obj')) == symmap]
-        fills += [c for c in fn.walk() if c['k'] == 'CXXOperatorCallExpr' and c.get('op') == '[]' and c.get('args') and dref(c['args'][0]) == symmap and
-                  (c.get('_p') or {}).get('k') in ('BinaryOperator', 'CXXOperatorCallExpr') and (c['_p'].get('op') == '=')]
-        if not fills:
-            em.violation(sym_loop, 'symbol loop over ' + unit.text(rng, 40), 'the container the symbol loop ranges over is never filled', 'alphabet')
-        for f in fills:
-            L = enclosing(f, ('CXXForRangeStmt',))
-            txt = unit.text(f, 60)
-            if L is None or not dict_loop(L):
-                em.violation(f, txt, 'the symbols the complement is taken over are collected here, but not in a loop over `<alphabet>->GetSymbolDict()`: a symbol that is registered in the '
-                             'alphabet and not used by the automaton gets no rule, so trees containing it are rejected by both A and Complement(A) (or symbols outside the alphabet get rules)', 'alphabet')
-                continue
-            fill_loop = L
-            g = guards_within(f, L)
-            if g:
-                em.violation(f, txt, 'the symbol is recorded only under the test `%s`: symbols of the alphabet for which it fails get no rule in the complement' % unit.text(g[0][1], 50), 'alphabet')
-            else:
-                em.ok(f, txt, 'every entry of the alphabet dictionary is recorded, unconditionally', 'alphabet')
-
-    # ---- ranks: recorded in the same pass, at the position stored with the symbol
     rank_vecs = set()
     for n in walk(sym_loop):
         s = is_sub(n)
         if s and dref(s[0]) in vt and re.match(r'^std::vector<(unsigned long|unsigned int|size_t|int|long)>$', unit.ty(vt[dref(s[0])]['decl']).replace('const ', '').replace('&', '').strip()):
             if member_of(fn, s[1], sv):
                 rank_vecs.add(dref(s[0]))
-    ranks = None
-    if fill_loop is not None:
-        for c in walk(fill_loop):
-            if c['k'] == 'CXXMemberCallExpr' and method_name(c) in ('push_back', 'emplace_back') and dref(c.get('obj')) in rank_vecs:
-                ranks = dref(c.get('obj'))
-                txt = unit.text(c, 60)
-                g = guards_within(c, fill_loop)
-                arg = strip((c.get('args') or [None])[0])
-                is_rank = arg is not None and any(x['k'] == 'MemberExpr' and x.get('n') == 'rank' for x in walk(arg))
-                if g:
-                    em.violation(c, txt, 'the rank is recorded only under `%s` while the symbol is recorded unconditionally: the positions of later symbols no longer match their ranks' % unit.text(g[0][1], 40), 'ranks')
-                elif not is_rank:
-                    em.violation(c, txt, 'the value recorded per symbol is not the `rank` of the dictionary entry', 'ranks')
-                else:
-                    em.ok(c, txt, 'the rank of every dictionary entry is recorded in the pass that records the symbol', 'ranks')
-                # position stored with the symbol: ranks.size() evaluated before the push (or size()-1 after it)
-                for f in [x for x in walk(fill_loop) if x['k'] == 'CXXMemberCallExpr' and method_name(x) in FILLS and dref(x.get('obj')) == symmap]:
-                    szs = [x for x in walk(f) if x['k'] == 'CXXMemberCallExpr' and method_name(x) == 'size' and dref(x.get('obj')) == ranks]
-                    if not szs:
-                        continue
-                    minus1 = any(b['k'] == 'BinaryOperator' and b.get('op') == '-' and any(y is szs[0] for y in walk(b['ch'][0])) and (strip(b['ch'][1]) or {}).get('v') == 1 for b in walk(f))
-                    before = unit.loc(f)[1:] < unit.loc(c)[1:]
-                    if (before and not minus1) or (not before and minus1):
-                        em.ok(f, unit.text(f, 60), 'the position stored with the symbol is the position its rank is pushed to', 'ranks')
-                    else:
-                        em.violation(f, unit.text(f, 60), 'the position stored with the symbol (`%s`%s) is not the position its rank is pushed to (the push is %s this statement): every symbol is looked up with the rank of its neighbour' % (
-                            unit.text(szs[0], 20), ' - 1' if minus1 else '', 'before' if not before else 'after'), 'ranks')
-    if ranks is None and rank_vecs:
-        em.unknown(sym_loop, 'rank vector', 'the pass that records the ranks was not recognised')
+    if symmap is None:
+        if any(c['k'] == 'CXXMemberCallExpr' and method_name(c) == 'GetSymbolDict' and alpha in origins(fn, c.get('obj'), stop={alpha, src}) for c in walk(sym_loop['range'])):
+            em.ok(sym_loop, 'symbol loop over GetSymbolDict()', 'ranges over the dictionary of the alphabet itself', 'alphabet')
+        else:
+            em.violation(sym_loop, 'symbol loop over ' + unit.text(rng, 50), 'the complement must emit rules for every ranked symbol of the alphabet; this loop does not range over the alphabet dictionary '
+                         '(symbols registered in the alphabet but unused by the automaton get no rule: trees using them are rejected by both A and its complement)', 'alphabet')
+    else:
+        done = dict_fill(unit, em, fn, fn.body, symmap, {alpha}, {src}, rank_vecs)
+        if not done:
+            # filled by a helper that receives the container by reference
+            for c in fn.calls():
+                cv = callee_view(unit, fn, c)
+                if not cv:
+                    continue
+                pds, body, _, actual = cv
+                idx = [i for i, a in enumerate(actual) if dref(a) == symmap]
+                if not idx or idx[0] >= len(pds):
+                    continue
+                g = unit.by_decl.get(c.get('cd'))
+                if g is None:
+                    continue
+                al = {pds[i] for i, a in enumerate(actual) if i < len(pds) and alpha in origins(fn, a, stop={alpha, src})}
+                rv = {pds[i] for i, a in enumerate(actual) if i < len(pds) and dref(a) in rank_vecs}
+                done = dict_fill(unit, em, g, g.body, pds[idx[0]], al, set(), rv) or done
+        if not done:
+            em.violation(sym_loop, 'symbol loop over ' + unit.text(rng, 40), 'the container the symbol loop ranges over is never filled from the alphabet dictionary', 'alphabet')
 
     # ---- init: first macro-state from the final states of src; the accepting state is its number
     fin_loops = [L for L in fn.walk() if L['k'] == 'CXXForRangeStmt' and is_node(L.get('range')) and
@@ -229,10 +257,24 @@ def compute(unit, fn, em):
     for L in fin_loops:
         lv = L['var']['d']
         ins = [c for c in walk(L['body']) if c['k'] == 'CXXMemberCallExpr' and method_name(c) == 'insert' and 'Antichain1C' in (c.get('q') or '') and dref((c.get('args') or [None])[0]) == lv]
+        scope = L
+        pre = []
+        if not ins:
+            # through a local lambda / helper that receives the state and inserts it
+            for hc in walk(L['body']):
+                cv = callee_view(unit, fn, hc) if hc['k'] in ('CXXOperatorCallExpr', 'CallExpr', 'CXXMemberCallExpr') else None
+                if not cv:
+                    continue
+                pds, hbody, _, actual = cv
+                pj = [pds[i] for i, a in enumerate(actual) if i < len(pds) and dref(a) == lv]
+                hins = [c for c in walk(hbody) if c['k'] == 'CXXMemberCallExpr' and method_name(c) == 'insert' and 'Antichain1C' in (c.get('q') or '') and dref((c.get('args') or [None])[0]) in pj]
+                if hins:
+                    ins, scope, pre = hins, hbody, guards_within(hc, L)
+                    break
         if not ins:
             em.violation(L, 'loop over src.finalStates_', 'the final state is not inserted into the first macro-state', 'init')
             continue
-        g = guards_within(ins[0], L)
+        g = pre + guards_within(ins[0], scope)
         bad = [a for pol, a in g if not (a['k'] == 'CXXMemberCallExpr' and method_name(a) == 'contains' and 'Antichain1C' in (a.get('q') or ''))]
         if bad:
             em.violation(ins[0], unit.text(ins[0], 50), 'a final state is left out of the first macro-state under `%s` (only the antichain\'s own `contains` may skip one)' % unit.text(bad[0], 40), 'init')
@@ -330,7 +372,12 @@ def compute(unit, fn, em):
         E = next((z for z in (empty_fact(p, a) for p, a in facts) if z is not None), None)
         txt = unit.text(c, 70)
         ch = strip((c.get('args') or [None])[0])
-        in_do = enclosing(c, ('DoStmt',))
+        in_do = None
+        for anc in ancestors(c):
+            if anc is sym_loop:
+                break
+            if anc['k'] in ('DoStmt', 'WhileStmt', 'ForStmt') and any(x['k'] == 'CXXMemberCallExpr' and method_name(x) == 'next' and 'ChoiceFunction' in (x.get('q') or '') for x in walk(anc)):
+                in_do = anc
         if E is True and Z is True:
             empty_tuple = ch is not None and ch['k'] in ('CXXTemporaryObjectExpr', 'CXXConstructExpr') and not [a for a in ch.get('args') or [] if a['k'] != 'CXXDefaultArgExpr']
             if empty_tuple:
@@ -361,11 +408,11 @@ def compute(unit, fn, em):
             seen_cases['Ez'] = c
         elif E is False and Z is False:
             if in_do is None:
-                em.violation(c, txt, 'rules for a symbol that has rules in the macro-state must be emitted once per choice function (inside the do-loop driven by next())', 'cases')
+                em.violation(c, txt, 'rules for a symbol that has rules in the macro-state must be emitted once per choice function (inside the loop driven by ChoiceFunction::next())', 'cases')
             else:
                 g = guards_within(c, in_do)
                 if g:
-                    em.violation(c, txt, 'the rule of a choice function is emitted only under `%s`: the complement loses the trees that need the skipped choice functions... or rather gains none for them — every choice function must yield a rule' % unit.text(g[0][1], 40), 'cases')
+                    em.violation(c, txt, 'the rule of a choice function is emitted only under `%s`: every choice function must yield a rule, otherwise the trees only that rule accepts are rejected by A and by its complement' % unit.text(g[0][1], 40), 'cases')
                 else:
                     em.ok(c, txt, 'one rule per choice function', 'cases')
             seen_cases['ez'] = c
@@ -399,28 +446,55 @@ def compute(unit, fn, em):
         do = next((d for d in walk(sym_loop) if d['k'] == 'DoStmt' or d['k'] == 'WhileStmt'), None)
     for d in walk(sym_loop):
         if d['k'] in ('DoStmt', 'WhileStmt', 'ForStmt') and any(inside(a, d) for a in adds) and d is not work_loop:
-            if d['k'] == 'ForStmt' and not any(x['k'] == 'CXXMemberCallExpr' and method_name(x) == 'next' for x in walk(d.get('c')) if is_node(d.get('c'))):
+            nx_all = [x for x in walk(d) if x['k'] == 'CXXMemberCallExpr' and method_name(x) == 'next' and 'ChoiceFunction' in (x.get('q') or '')]
+            if not nx_all:
                 continue
             cond = d.get('c')
-            nx = [x for x in walk(cond) if x['k'] == 'CXXMemberCallExpr' and method_name(x) == 'next' and 'ChoiceFunction' in (x.get('q') or '')] if is_node(cond) else []
-            plain = is_node(cond) and strip(cond) is not None and strip(cond)['k'] == 'CXXMemberCallExpr'
+            nx = [x for x in walk(cond) if any(x is y for y in nx_all)] if is_node(cond) else []
+            sc = strip(cond) if is_node(cond) else None
+            plain = sc is not None and sc['k'] == 'CXXMemberCallExpr'
             if nx and plain and d['k'] == 'DoStmt':
                 em.ok(d, 'do { ... } while (%s)' % unit.text(cond, 30), 'the loop body runs for the initial choice function and for every one next() produces', 'choice')
-            elif nx and d['k'] == 'WhileStmt':
-                em.violation(d, 'while (%s)' % unit.text(cond, 30), 'a while-loop advances before the first choice function (all zeros) was used: its rule is never emitted', 'choice')
+            elif nx and d['k'] in ('WhileStmt', 'ForStmt'):
+                em.violation(d, 'while (%s)' % unit.text(cond, 30), 'a loop that calls next() in its condition advances before the first choice function (all zeros) was used: its rule is never emitted', 'choice')
             elif nx:
                 em.violation(d, 'loop on ' + unit.text(cond, 40), 'the enumeration of choice functions stops on a condition besides next(): the remaining choice functions yield no rule', 'choice')
+            elif sc is not None and sc['k'] == 'DeclRefExpr' and unit.ty(sc).strip() == 'bool':
+                # flag-controlled form: `bool more = true; while (more) { ...; more = cf.next(); }`
+                fl = dref(sc)
+                srcs_ = local_sources(fn, fl)
+                init_true = bool(srcs_) and (strip(srcs_[0]) or {}).get('k') == 'CXXBoolLiteralExpr' and (strip(srcs_[0]) or {}).get('v') in (True, 1, 'true')
+                only_next = all((strip(x) or {}).get('k') == 'CXXBoolLiteralExpr' or any(any(y is z for z in nx_all) for y in walk(x)) for x in srcs_)
+                plain_next = all((strip(x) or {}).get('k') in ('CXXBoolLiteralExpr', 'CXXMemberCallExpr') for x in srcs_)
+                if init_true and only_next and plain_next:
+                    em.ok(d, 'while (%s) { ...; %s = next(); }' % (sc.get('n'), sc.get('n')), 'the flag starts true and is only ever set from next(): same iterations as do-while(next())', 'choice')
+                else:
+                    em.violation(d, 'loop on flag ' + (sc.get('n') or ''), 'the flag that drives the enumeration of choice functions does not start true or is not set from next() alone: choice functions are skipped', 'choice')
+            else:
+                em.unknown(d, 'loop on ' + unit.text(cond, 40), 'form of the choice-function loop not recognised')
 
     # ---- pos
     ac_calls = [c for c in walk(sym_loop) if c['k'] == 'CXXMemberCallExpr' and 'Antichain1C' in (c.get('q') or '') and method_name(c) in ('insert', 'contains', 'refine', 'data', 'clear')]
+    pos_sites = []      # (report node, slot expression, value expression)
     for c in ac_calls:
-        if method_name(c) != 'insert':
+        if method_name(c) == 'insert' and is_sub(c.get('obj')):
+            pos_sites.append((c, c.get('obj'), (c.get('args') or [None])[0]))
+    for hc in walk(sym_loop):
+        cv = callee_view(unit, fn, hc) if hc['k'] in ('CXXOperatorCallExpr', 'CallExpr', 'CXXMemberCallExpr') else None
+        if not cv:
             continue
-        s = is_sub(c.get('obj'))
+        pds, hbody, _, actual = cv
+        for c in walk(hbody):
+            if c['k'] == 'CXXMemberCallExpr' and method_name(c) == 'insert' and 'Antichain1C' in (c.get('q') or ''):
+                ia, ib = dref(c.get('obj')), dref((c.get('args') or [None])[0])
+                if ia in pds and ib in pds and pds.index(ia) < len(actual) and pds.index(ib) < len(actual) and is_sub(actual[pds.index(ia)]):
+                    pos_sites.append((hc, actual[pds.index(ia)], actual[pds.index(ib)]))
+    for c, slot_e, val_e in pos_sites:
+        s = is_sub(slot_e)
         if not s:
             continue
         slot = strip(s[1])
-        val = resolve(fn, (c.get('args') or [None])[0])
+        val = resolve(fn, val_e)
         vs = is_sub(val)
         txt = unit.text(c, 50)
         if vs and dref(slot) is not None and dref(vs[1]) is not None:
@@ -441,12 +515,18 @@ def compute(unit, fn, em):
         F = enclosing(a, ('ForStmt',))
         if F is None:
             continue
-        harv = [c for c in ac_calls if method_name(c) == 'data' and inside(c, F)]
+        harv = [c.get('obj') for c in ac_calls if method_name(c) == 'data' and inside(c, F)]
+        for hc in walk(F):
+            if hc['k'] in ('CXXOperatorCallExpr', 'CallExpr', 'CXXMemberCallExpr') and 'Antichain1C' not in (hc.get('q') or '') and not (hc['k'] == 'CXXOperatorCallExpr' and hc.get('op') == '[]'):
+                for ar in (hc.get('args') or []):
+                    sa = is_sub(ar)
+                    if sa and dref(sa[0]) in vt and 'Antichain1C' in unit.ty(vt[dref(sa[0])]['decl']):
+                        harv.append(ar)
         txt = unit.text(a, 50)
         if not harv:
             em.unknown(a, txt, 'no harvest of a position macro-state in the loop that fills the rule')
             continue
-        hs = is_sub(harv[0].get('obj'))
+        hs = is_sub(harv[0])
         if hs and dref(hs[1]) is not None and dref(s[1]) is not None:
             if dref(hs[1]) == dref(s[1]):
                 em.ok(a, txt, 'position `%s` of the new rule is the macro-state collected for position `%s`' % (strip(s[1]).get('n'), strip(hs[1]).get('n')), 'pos')
@@ -494,12 +574,35 @@ def compute(unit, fn, em):
         else:
             em.violation(w or fills[0], 'scratch %s' % name, '`%s` is declared outside the symbol loop and is used here without having been emptied in this iteration: the rules collected for the '
                          'previous symbol (of another rank) are still in it' % name, 'reset')
-    for c in ac_calls:
-        if method_name(c) != 'data' or cfg is None:
+    ac_all = [c for c in fn.walk(lambdas=False) if c['k'] == 'CXXMemberCallExpr' and 'Antichain1C' in (c.get('q') or '') and method_name(c) in ('insert', 'contains', 'refine', 'data', 'clear')]
+    harvests = [(c, c.get('obj')) for c in ac_all if method_name(c) == 'data']
+    # a position antichain handed to a helper / local lambda (by reference) is harvested there
+    for c in fn.walk(lambdas=False):
+        if c['k'] not in ('CallExpr', 'CXXOperatorCallExpr', 'CXXMemberCallExpr') or 'Antichain1C' in (c.get('q') or ''):
             continue
-        hs = is_sub(c.get('obj'))
+        for a in (c.get('args') or []):
+            sa = is_sub(a)
+            if sa and dref(sa[0]) in vt and 'Antichain1C' in unit.ty(vt[dref(sa[0])]['decl']) and not (c['k'] == 'CXXOperatorCallExpr' and c.get('op') == '[]'):
+                harvests.append((c, a))
+    for c, slot_expr in harvests:
+        if cfg is None:
+            continue
+        hs = is_sub(slot_expr)
         if not hs:
             continue
+        cv = callee_view(unit, fn, c) if c['k'] != 'CXXMemberCallExpr' or 'Antichain1C' not in (c.get('q') or '') else None
+        if cv:
+            pds, hbody, hcfg, actual = cv
+            pi = [pds[i] for i, a_ in enumerate(actual) if a_ is slot_expr and i < len(pds)]
+            hdata = [x for x in walk(hbody) if x['k'] == 'CXXMemberCallExpr' and 'Antichain1C' in (x.get('q') or '') and method_name(x) == 'data' and dref(x.get('obj')) in pi]
+            if not hdata:
+                continue        # the helper does not harvest this antichain (it fills or queries it)
+            if hcfg is not None:
+                last = max(hdata, key=lambda x: x['i'])
+                okh, _ = must_pass_through(hcfg, hcfg.locate(last), None, lambda n: n['k'] == 'CXXMemberCallExpr' and method_name(n) == 'clear' and dref(n.get('obj')) in pi) if hcfg.locate(last) is not None else (False, None)
+                if okh:
+                    em.ok(c, unit.text(c, 40), 'the helper empties the position macro-state after harvesting it, on every path', 'reset')
+                    continue
         key = (dref(hs[0]), dref(hs[1]) if dref(hs[1]) is not None else ('lit', (strip(hs[1]) or {}).get('v')))
 
         def same_slot(n, key=key):
@@ -509,7 +612,7 @@ def compute(unit, fn, em):
         if pos is None:
             continue
         # several data() calls in one statement (begin/end): take the last located one only
-        later = [x for x in ac_calls if method_name(x) == 'data' and x is not c and same_slot(x) and enclosing(x, ('DeclStmt', 'BinaryOperator', 'CXXOperatorCallExpr', 'ExprWithCleanups')) is enclosing(c, ('DeclStmt', 'BinaryOperator', 'CXXOperatorCallExpr', 'ExprWithCleanups')) and x['i'] > c['i']]
+        later = [x for x in ac_all if method_name(x) == 'data' and x is not c and same_slot(x) and enclosing(x, ('DeclStmt', 'BinaryOperator', 'CXXOperatorCallExpr', 'ExprWithCleanups')) is enclosing(c, ('DeclStmt', 'BinaryOperator', 'CXXOperatorCallExpr', 'ExprWithCleanups')) and x['i'] > c['i']]
         if later:
             continue
         ok, w = must_pass_through(cfg, pos, lambda n: n['k'] == 'CXXMemberCallExpr' and 'Antichain1C' in (n.get('q') or '') and method_name(n) in ('insert', 'contains') and is_sub(n.get('obj')) and dref(is_sub(n.get('obj'))[0]) == key[0],
@@ -520,6 +623,45 @@ def compute(unit, fn, em):
         else:
             em.violation(c, txt, 'after this harvest the position macro-state can be filled again (line %d) without having been cleared: the states of the previous choice function stay in it and the next '
                          'macro-state is too big (the complement rejects trees it must accept)' % (unit.loc(w)[1] if w else 0), 'reset')
+
+    # ---- enqueue: every macro-state that enters the cache is put on the worklist
+    todo = None
+    if work_loop is not None and is_node(work_loop.get('c')):
+        for x in walk(work_loop['c']):
+            if x['k'] == 'CXXMemberCallExpr' and method_name(x) in ('size', 'empty') and dref(x.get('obj')) in vt:
+                todo = dref(x.get('obj'))
+    if todo is not None and cfg is not None:
+        enq = [c for c in fn.calls() if c['k'] == 'CXXMemberCallExpr' and method_name(c) in ('insert', 'push_back', 'push', 'emplace', 'push_front') and dref(c.get('obj')) == todo]
+        deq = [c for c in fn.calls() if c['k'] == 'CXXMemberCallExpr' and method_name(c) in ('erase', 'pop_back', 'pop', 'pop_front') and dref(c.get('obj')) == todo]
+        for ci in cache_ins:
+            ccfg, lam = cfg_for(fn, ci)
+            pos = ccfg.locate(ci) if ccfg is not None else None
+            if pos is None:
+                continue
+            # variables holding the result of this insert
+            holders = {d for d, v in vt.items() if v['kind'] == 'local' and any(any(y is ci for y in walk(s_)) for s_ in local_sources(fn, d))}
+
+            def pick(cond, holders=holders):
+                # on `if (p.second)` only the branch in which this insert created the entry matters
+                c0 = strip(cond)
+                neg = False
+                while c0 is not None and c0['k'] == 'UnaryOperator' and c0.get('op') == '!':
+                    neg = not neg
+                    c0 = strip(c0['ch'][0])
+                if c0 is not None and c0['k'] == 'MemberExpr' and c0.get('n') == 'second' and dref((c0.get('ch') or [None])[0]) in holders:
+                    return not neg
+                return None
+            if lam is not None:
+                # inside a helper lambda: it must enqueue what it created before it returns
+                ok, w = must_pass_through(ccfg, pos, None, lambda n: any(n is x for x in enq), edge_filter=pick)
+            else:
+                ok, w = must_pass_through(ccfg, pos, lambda n: any(n is x for x in cache_ins if x is not ci) or any(n is x for x in deq), lambda n: any(n is x for x in enq), edge_filter=pick)
+            txt = unit.text(ci, 60)
+            if ok:
+                em.ok(ci, txt, 'a macro-state created here is put on the worklist before the next one is created or dequeued', 'enqueue')
+            else:
+                em.violation(ci, txt, 'a macro-state that this insert creates can reach line %d without having been put on the worklist `%s`: it is never expanded, gets no rules, and every rule pointing to it is '
+                             'trimmed away (the complement rejects trees it must accept)' % (unit.loc(w)[1] if w else unit.loc(ci)[1], vt[todo]['decl'].get('n')), 'enqueue')
 
     # ---- symkind
     for n in walk(sym_loop):
@@ -548,9 +690,16 @@ def compute(unit, fn, em):
             pv = dref((par.get('ch') or [None])[0])
         deq = False
         if pv is not None and pv in vt:
-            for s_ in local_sources(fn, pv):
-                if any(x['k'] == 'CXXMemberCallExpr' and method_name(x) == 'begin' for x in walk(s_)) or any(x['k'] == 'CXXMemberCallExpr' and method_name(x) in ('front', 'back', 'top') for x in walk(s_)):
-                    deq = True
+            todo_src, seen_d = [pv], set()
+            while todo_src and len(seen_d) < 8:
+                dd = todo_src.pop()
+                if dd in seen_d:
+                    continue
+                seen_d.add(dd)
+                for s_ in local_sources(fn, dd):
+                    if any(x['k'] == 'CXXMemberCallExpr' and method_name(x) in ('begin', 'front', 'back', 'top') for x in walk(s_)):
+                        deq = True
+                    todo_src.extend(x.get('d') for x in walk(s_) if x['k'] == 'DeclRefExpr' and x.get('dk') == 'local')
             if vt[pv]['kind'] == 'local' and work_loop is not None and inside(vt[pv]['node'], work_loop) and not inside(vt[pv]['node'], sym_loop) and deq:
                 em.ok(c, txt + ' [parent]', 'the parent of the rule is the number of the dequeued macro-state', 'symkind')
             elif inside(vt[pv]['node'] or sym_loop, sym_loop):
